@@ -73,6 +73,10 @@ type gfunc struct {
 	name   string
 	params []gvar
 	refs   []bool
+	// frozen[k]: the callee never assigns reference parameter k as a whole (only elements of it), so that a Referenz to
+	// one of its elements stays valid during the call.  A Referenz to an element of a list that the callee replaces is
+	// the recorded finding C05/dangling-element-reference; generated programs keep away from it.
+	frozen []bool
 	ret    gty
 	hasRet bool
 	alias  string // with <p> placeholders
@@ -160,6 +164,19 @@ func (g *ownGen) expr(e *genv, t gty, d int) (string, int) {
 		case 1:
 			lt := prng.Pick(r, []gty{tT, tZL, tTL, tSL})
 			x, _ := g.expr(e, lt, d-1)
+			if lt != tT && r.Chance(0.4) {
+				// through a generic function (instantiated per element type): variables are passed without a copy at -O 2
+				// if the instantiation is judged not to change its parameter
+				if vs := e.ofType(lt, false); len(vs) > 0 && r.Chance(0.7) {
+					x = prng.Pick(r, vs).name
+				}
+				if r.Bool() {
+					g.role(lt, "argument-of-generic-function-that-changes-it")
+					return fmt.Sprintf("(die doppelte Länge von %s)", x), 0
+				}
+				g.role(lt, "argument-of-generic-function-that-reads-it")
+				return fmt.Sprintf("(die Länge von %s und %d)", x, r.Range(0, 3)), 0
+			}
 			g.role(lt, "operand-of-length")
 			return fmt.Sprintf("(die Länge von %s)", x), 0
 		case 2:
@@ -461,6 +478,23 @@ func (g *ownGen) call(e *genv, f *gfunc, d int) (string, bool) {
 				}
 			}
 			arg = v.name
+			// the same storage through two reference parameters: the same variable again, or an element of a list passed before
+			for k := 0; k < i; k++ {
+				if !f.refs[k] {
+					continue
+				}
+				if f.params[k].ty == p.ty && g.r.Chance(0.5) {
+					arg = args[k]
+					g.roles["call: same variable for two Referenz parameters"] = true
+				} else if (f.params[k].ty == tTL && p.ty == tT || f.params[k].ty == tSL && p.ty == tS) && f.frozen[k] && !strings.HasPrefix(args[k], "(") && g.r.Chance(0.8) {
+					for _, c := range e.vars {
+						if c.name == args[k] && c.minLen >= 1 {
+							arg = fmt.Sprintf("(%s an der Stelle 1)", c.name)
+							g.roles["call: list and one of its elements for two Referenz parameters"] = true
+						}
+					}
+				}
+			}
 			g.role(p.ty, "argument-by-Referenz")
 			if g.inFunc != nil {
 				for k, fp := range g.inFunc.params {
@@ -490,6 +524,25 @@ func (g *ownGen) call(e *genv, f *gfunc, d int) (string, bool) {
 		args = append(args, arg)
 	}
 	for i := range f.params {
+		if f.refs[i] && strings.HasPrefix(args[i], "(") {
+			for k := range f.params {
+				if k != i && f.refs[k] && !f.frozen[k] && !strings.HasPrefix(args[k], "(") && containsIdent(args[i], args[k]) {
+					return "", false
+				}
+			}
+		}
+	}
+	// what was passed by Referenz may come back shorter
+	for i := range f.params {
+		if f.refs[i] {
+			for _, c := range e.vars {
+				if containsIdent(args[i], c.name) {
+					c.minLen = 0
+				}
+			}
+		}
+	}
+	for i := range f.params {
 		if !f.refs[i] {
 			continue
 		}
@@ -503,6 +556,69 @@ func (g *ownGen) call(e *genv, f *gfunc, d int) (string, bool) {
 		}
 	}
 	return s, true
+}
+
+// aliasCall declares a local variable and passes it to an earlier function both by value and by Referenz (where one
+// has parameters of the same type in both modes), every other argument drawn as usual; afterwards the local is used
+// again.  What the callee sees through the by-value parameter must not depend on what it writes through the reference.
+func (g *ownGen) aliasCall(e *genv, ind int) {
+	type cand struct {
+		f    *gfunc
+		v, r int
+	}
+	var cs []cand
+	for _, f := range g.funcs {
+		if f == g.inFunc {
+			continue
+		}
+		for i := range f.params {
+			for k := range f.params {
+				if i != k && !f.refs[i] && f.refs[k] && f.params[i].ty == f.params[k].ty && f.params[i].ty != tZ {
+					cs = append(cs, cand{f, i, k})
+				}
+			}
+		}
+	}
+	if len(cs) == 0 {
+		return
+	}
+	c := prng.Pick(g.r, cs)
+	t := c.f.params[c.v].ty
+	x, n := g.literal(t, e, 1)
+	l := &gvar{name: g.fresh("l"), ty: t, minLen: n}
+	g.line(ind, fmt.Sprintf("%s %s ist %s.", t.decl(), l.name, x))
+	s := c.f.alias
+	for i, p := range c.f.params {
+		var arg string
+		switch {
+		case i == c.v || i == c.r:
+			arg = l.name
+		case c.f.refs[i]:
+			vs := e.ofType(p.ty, true)
+			if len(vs) == 0 {
+				return
+			}
+			arg = prng.Pick(g.r, vs).name
+		default:
+			vs := e.ofType(p.ty, false)
+			if len(vs) > 0 && g.r.Bool() {
+				arg = prng.Pick(g.r, vs).name
+			} else {
+				arg, _ = g.expr(e, p.ty, 1)
+			}
+		}
+		s = strings.Replace(s, "<"+p.name+">", arg, 1)
+	}
+	g.roles["call: fresh local by value and by Referenz in the same call"] = true
+	if c.f.hasRet {
+		v := &gvar{name: g.fresh("r"), ty: c.f.ret}
+		g.line(ind, fmt.Sprintf("%s %s ist %s.", c.f.ret.decl(), v.name, s))
+		e.push(v)
+	} else {
+		g.line(ind, s+".")
+	}
+	l.minLen = 0
+	e.push(l)
 }
 
 // containsIdent reports whether the identifier name occurs in the expression text
@@ -933,6 +1049,18 @@ ein Paar, und erstellen sie so:
 	"ein Paar namens <name>" oder
 	"ein Paar namens <name> mit den Werten <werte>"
 
+[ generic functions: one changes its by-value parameter, one only reads it ]
+Die generische Funktion verdoppelt_lang mit dem Parameter gl vom Typ T Liste, gibt eine Zahl zurück, macht:
+	Speichere gl verkettet mit gl in gl.
+	Gib die Länge von gl zurück.
+Und kann so benutzt werden:
+	"die doppelte Länge von <gl>"
+
+Die generische Funktion nur_lang mit den Parametern gl und gz vom Typ T Liste und Zahl, gibt eine Zahl zurück, macht:
+	Gib (die Länge von gl) plus gz zurück.
+Und kann so benutzt werden:
+	"die Länge von <gl> und <gz>"
+
 `
 
 func genOwnProgram(r *prng.R, idx int, avoidAlias bool) *HProg {
@@ -953,10 +1081,11 @@ func genOwnProgramFull(r *prng.R, idx int, avoidAlias, selfContained, withErrors
 	}
 	// functions
 	nf := r.Range(2, 5)
+	var later []string // definitions of forward declared functions
 	focus := []gty{prng.Pick(r, heapTypes), prng.Pick(r, heapTypes)}
 	for i := 0; i < nf; i++ {
 		f := &gfunc{name: fmt.Sprintf("fn%d", i)}
-		np := r.Range(0, 3)
+		np := r.Range(0, 4)
 		alias := fmt.Sprintf("fn%d", i)
 		for k := 0; k < np; k++ {
 			t := prng.Pick(r, heapTypes)
@@ -968,9 +1097,25 @@ func genOwnProgramFull(r *prng.R, idx int, avoidAlias, selfContained, withErrors
 			}
 			p := gvar{name: fmt.Sprintf("a%d", k), ty: t}
 			ref := r.Chance(0.35)
+			// twin reference parameters: the same type (or the element type of the list before) by Referenz twice
+			if k > 0 && r.Chance(0.25) {
+				prev := f.params[k-1].ty
+				p.ty = prev
+				if prev == tTL && r.Bool() {
+					p.ty = tT
+				} else if prev == tSL && r.Bool() {
+					p.ty = tS
+				}
+				ref = true
+				f.refs[k-1] = true
+				if p.ty != prev {
+					f.frozen[k-1] = true
+				}
+			}
 			f.params = append(f.params, p)
 			f.refs = append(f.refs, ref)
-			alias += fmt.Sprintf(" %s <%s>", []string{"mit", "und", "sowie"}[k], p.name)
+			f.frozen = append(f.frozen, false)
+			alias += fmt.Sprintf(" %s <%s>", []string{"mit", "und", "sowie", "dazu"}[k], p.name)
 		}
 		f.alias = alias
 		if r.Chance(0.7) {
@@ -998,15 +1143,31 @@ func genOwnProgramFull(r *prng.R, idx int, avoidAlias, selfContained, withErrors
 			hdr += ","
 		}
 		if f.hasRet {
-			hdr += fmt.Sprintf(" gibt %s zurück, macht:", f.ret.ret())
+			hdr += fmt.Sprintf(" gibt %s zurück,", f.ret.ret())
 		} else {
-			hdr += " gibt nichts zurück, macht:"
+			hdr += " gibt nichts zurück,"
 		}
-		g.line(0, hdr)
+		// now and then declared first and defined after the main part of the program
+		forward := r.Chance(0.25)
+		var outer string
+		if forward {
+			g.line(0, hdr)
+			g.line(0, "wird später definiert")
+			g.line(0, "und kann so benutzt werden:")
+			g.line(1, `"`+f.alias+`"`)
+			g.line(0, "")
+			outer = g.b.String()
+			g.b.Reset()
+			g.line(0, fmt.Sprintf("Die Funktion %s macht:", f.name))
+			g.roles["function: declared first, defined later"] = true
+		} else {
+			g.line(0, hdr+" macht:")
+		}
 		e := &genv{}
 		for k := range f.params {
 			p := f.params[k]
 			pv := p
+			pv.ro = f.frozen[k]
 			e.push(&pv)
 			if f.refs[k] {
 				g.role(p.ty, "parameter-by-Referenz")
@@ -1019,9 +1180,30 @@ func genOwnProgramFull(r *prng.R, idx int, avoidAlias, selfContained, withErrors
 		for s, n := 0, r.Range(1, 5); s < n; s++ {
 			g.stmt(e, 1)
 		}
+		// a fresh local handed to an earlier function by value and by Referenz in the same call
+		if r.Chance(0.5) {
+			g.aliasCall(e, 1)
+		}
+		// one reference parameter assigned to another (or to an element of another): the caller may pass overlapping storage
+		for i, pi := range f.params {
+			for k, pk := range f.params {
+				if i == k || !f.refs[i] || !f.refs[k] {
+					continue
+				}
+				if pi.ty == pk.ty && !f.frozen[i] && r.Chance(0.5) {
+					g.line(1, fmt.Sprintf("Speichere %s in %s.", pk.name, pi.name))
+					g.role(pi.ty, "reference-parameter-assigned-to-reference-parameter")
+				}
+				if (pi.ty == tTL && pk.ty == tT || pi.ty == tSL && pk.ty == tS) && f.frozen[i] && r.Chance(0.8) {
+					g.line(1, fmt.Sprintf("Wenn (die Länge von %s) größer als 0 ist, dann:", pi.name))
+					g.line(2, fmt.Sprintf("Speichere %s in %s an der Stelle 1.", pk.name, pi.name))
+					g.role(pi.ty, "reference-parameter-assigned-to-element-of-reference-parameter")
+				}
+			}
+		}
 		// mutate reference parameters (the callee writes through the reference)
 		for k, p := range f.params {
-			if f.refs[k] && r.Chance(0.7) {
+			if f.refs[k] && !f.frozen[k] && r.Chance(0.7) {
 				x, _ := g.expr(e, p.ty, 1)
 				g.line(1, fmt.Sprintf("Speichere %s in %s.", x, p.name))
 				g.role(p.ty, "written-through-Referenz")
@@ -1055,9 +1237,16 @@ func genOwnProgramFull(r *prng.R, idx int, avoidAlias, selfContained, withErrors
 			g.printStmt(e, 1)
 		}
 		g.inFunc = nil
-		g.line(0, "Und kann so benutzt werden:")
-		g.line(1, `"`+f.alias+`"`)
-		g.line(0, "")
+		if forward {
+			g.line(0, "")
+			later = append(later, g.b.String())
+			g.b.Reset()
+			g.b.WriteString(outer)
+		} else {
+			g.line(0, "Und kann so benutzt werden:")
+			g.line(1, `"`+f.alias+`"`)
+			g.line(0, "")
+		}
 		g.funcs = append(g.funcs, f)
 	}
 	// main
@@ -1086,6 +1275,10 @@ func genOwnProgramFull(r *prng.R, idx int, avoidAlias, selfContained, withErrors
 		case tSL, tN:
 			g.line(0, fmt.Sprintf("Schreibe (die Länge von %s) auf eine Zeile.", v.name))
 		}
+	}
+	g.line(0, "")
+	for _, d := range later {
+		g.b.WriteString(d)
 	}
 	var roles []string
 	for k := range g.roles {
